@@ -23,10 +23,13 @@ programs and continuations:
   started with leaves no trace: every continuation produces identical observations with and without it.
 
 The full statement `C10.Statement` (the heap may have grown by unreachable frames, miss counters
-may differ; cache unchanged) is stated below and NOT proved: it needs a heap-extension bisimulation
-over the whole evaluator.  It is what the `session` correspondence suite checks on the real
-`repl.EvalOne`.  Without the cache hypothesis the statement is false of model and code alike (listed
-finding `failed-input-leaves-cached-mutable-result`).
+may differ; cache unchanged) is stated below; it is proved in lean/GrolProofs/Props/C10Full.lean by a
+two-run simulation of the whole evaluator up to a shift of the frame indices
+(`Grol.C10.renaming_invariance`) and the invariance of the result renderer under that shift
+(`Grol.C10.renderValue_ren`): `Grol.C10.statement_full : C10.Statement`, no hypothesis.
+It is what the `session` correspondence suite checks on the real `repl.EvalOne`.
+Without the cache hypothesis the statement is false of model and code alike (listed finding
+`failed-input-leaves-cached-mutable-result`).
 -/
 namespace Grol.E
 
@@ -237,7 +240,7 @@ example :
     (finishInput (outcome (eval defaultFuel C10.deepProg) st) (stateAfter (eval defaultFuel C10.deepProg) st)).1.depth = 0 := by
   refine ⟨rfl, rfl, rfl⟩
 
-/-! ### the full statement (not proved here) -/
+/-! ### the full statement (proved in Props/C10Full.lean, see the header) -/
 
 /-- a reachable session state -/
 def C10.Reachable (st : St) : Prop :=
